@@ -133,6 +133,64 @@ def _check_render(part: Part, tier, seed):
                         part.violation("the rendered assertion evaluates without error in the test namespace",
                                        f"eval-error:{kind}:{_vclass(value)}", {**detail, "error": f"{type(e).__name__}: {e}"},
                                        target=f"{AA}:assertion_to_cst")
+        # the assertion describes the value *as observed*: code that runs later and changes the object in place (also deep
+        # inside it) must not change what was recorded for the earlier position
+        import copy
+
+        def grow(v, depth=0):
+            """Mutate every mutable container reachable from v in place; returns whether anything was changed."""
+            changed = False
+            if isinstance(v, list):
+                for x in list(v):
+                    changed |= grow(x, depth + 1)
+                v.append("later")
+                changed = True
+            elif isinstance(v, dict):
+                for x in list(v.values()):
+                    changed |= grow(x, depth + 1)
+                v["later"] = 0
+                changed = True
+            elif isinstance(v, set):
+                v.add("later")
+                changed = True
+            elif isinstance(v, tuple):
+                for x in v:
+                    changed |= grow(x, depth + 1)
+            elif isinstance(v, (mod.Plain,)):
+                changed |= grow(v.y, depth + 1)
+                v.x += 1
+                changed = True
+            return changed
+        for value in _c20_values(mod, tier):
+            try:
+                snapshot = copy.deepcopy(value)
+            except Exception:  # noqa: BLE001
+                continue
+            observer = ato.RemoteAssertionTraceObserver()
+            trace = at.AssertionTrace()
+            try:
+                observer._check_value("var_0", value, 0, trace, depth=0, max_depth=2)   # noqa: SLF001
+            except Exception:  # noqa: BLE001
+                continue            # (reported by the loop above)
+            if not grow(value):
+                continue
+            for a in trace.get_assertions(0):
+                part.case()
+                try:
+                    code = cst.Module(body=[assertion_to_cst(a)]).code
+                    compiled = compile(code, "<exported test>", "exec")
+                except Exception:  # noqa: BLE001
+                    continue        # (reported by the loop above)
+                ns = {"pytest": pytest, get_module_alias("c20_subject"): mod, **public, "var_0": snapshot}
+                try:
+                    exec(compiled, ns)   # noqa: S102
+                except AssertionError:
+                    part.violation("the rendered assertion passes against the observed value", f"not-a-snapshot:{type(a).__name__}:{_vclass(snapshot)}",
+                                   {"observed_value": repr(snapshot)[:300], "value_after_later_in_place_changes": repr(value)[:300],
+                                    "rendered_after_the_changes": code.strip()},
+                                   target="pynguin.assertion.assertiontraceobserver:RemoteAssertionTraceObserver._check_value")
+                except Exception:  # noqa: BLE001, S110
+                    pass
     finally:
         config.configuration.module_name = old_name
         sys.modules.pop("c20_subject", None)
